@@ -229,6 +229,12 @@ def mutations(d: bytes, ctxt: dict, thorough: bool):  # noqa: ANN201
         yield "key-substituted:signature-kept", body + d[sig_start:]
         yield "key-substituted:resigned-by-that-key", body + k2.signature(body)       # authentic for k2
         yield "key-substituted:resigned-by-third-key", body + k3.signature(body)
+    rpub = ctxt.get("receiver_pub")
+    if rpub is not None and len(rpub) == klen:
+        # the receiver's OWN key named as the signer (the sender does not hold its private half)
+        body = d[:25] + rpub + d[key_end:sig_start]
+        yield "key-substituted:receivers-own-key:signature-kept", body + d[sig_start:]
+        yield "key-substituted:receivers-own-key:resigned-by-third-key", body + k3.signature(body)
     body2 = d[:23] + struct.pack(">H", len(pub2)) + pub2 + d[key_end:sig_start]
     yield "key-substituted:other-length:signature-kept", body2 + d[sig_start:]
     yield "signed-by-other-key:key-kept", d[:sig_start] + k2.signature(d[:sig_start])[:siglen].ljust(siglen, b"\0")
@@ -378,6 +384,7 @@ def check_item(item: tuple) -> dict:
         handler_name = getattr(r_ov.decode_map[mid], "__name__", "?")
         ctxt = {"siglen": RustPublicKey(key).get_signature_length(),
                 "k2": fixtures.private_key(ks[1], curve), "k3": fixtures.private_key(ks[2], curve), "other": d_other,
+                "receiver_pub": r_node.my_peer.public_key.key_to_bin(),
                 "other_prefixes": sorted({bytes([0, 2]) + cls.community_id for cls, _ in overlays.OVERLAYS.values()
                                           if getattr(cls, "community_id", None)} - {d[:22]})}
 
